@@ -5,6 +5,7 @@
 import GormModel.Model.Hooks
 import GormModel.Gen.Pipelines
 import GormModel.Gen.Misc
+import GormModel.Gen.Finishers
 namespace Gorm
 open Gen
 
@@ -120,6 +121,106 @@ theorem C13_events_count (hooks : List String) (has : String → Bool) (n i : Na
 example : opEvents handlers ((pipelines.find? (fun p => p.1 = "create")).get!.2) (fun _ => true) 2 =
     [.hook "BeforeSave" 0, .hook "BeforeCreate" 0, .hook "BeforeSave" 1, .hook "BeforeCreate" 1, .stmt,
      .hook "AfterCreate" 0, .hook "AfterSave" 0, .hook "AfterCreate" 1, .hook "AfterSave" 1] := by
+  decide
+
+/-! ## Compound finishers -/
+
+/-- MAIN (exactly once across compound finishers): on EVERY control-flow path of EVERY finisher of
+    finisher_api.go -- with re-entered finishers expanded (Save -> Create -> CreateInBatches) and entries whose
+    handle derives from `Session{SkipHooks: true}` counted as hook-free (`C13_skip`) -- no hook name can be fired
+    by two pipelines of the same call: e.g. Save's UPDATE pipeline and its upsert fallback never both run
+    BeforeSave/AfterSave.  (Regenerated from the Session literals / Execute calls / control flow of /repo.) -/
+theorem C13_finishers_no_hook_twice :
+    ∀ f ∈ finishers, ∀ run ∈ runsOf finishers skipHookFinishers 4 false f.fn, (runHooks pipelines handlers run).Nodup := by
+  decide
+
+/-- the runs of Save are exactly: upsert-create of a slice; create (zero key); update; update followed by the
+    hook-less upsert -- and FirstOrCreate: query; query+create; query+update -/
+theorem C13_save_runs :
+    let same (a b : List (List (String × Bool))) : Bool := a.all (fun x => b.contains x) && b.all (fun x => a.contains x)
+    same (runsOf finishers skipHookFinishers 4 false "DB.Save")
+      [[("create", true)], [("update", true)], [("update", true), ("create", false)]] = true ∧
+    same (runsOf finishers skipHookFinishers 4 false "DB.FirstOrCreate")
+      [[("query", true)], [("query", true), ("create", true)], [("query", true), ("update", true)]] = true := by
+  decide
+
+/-- the column-update methods run their pipeline with hooks off; Update/Updates with hooks on -/
+theorem C13_updateColumn_runs :
+    runsOf finishers skipHookFinishers 4 false "DB.UpdateColumn" = [[("update", false)]] ∧
+    runsOf finishers skipHookFinishers 4 false "DB.UpdateColumns" = [[("update", false)]] ∧
+    runsOf finishers skipHookFinishers 4 false "DB.Updates" = [[("update", true)]] ∧
+    runsOf finishers skipHookFinishers 4 false "DB.Update" = [[("update", true)]] ∧
+    runsOf finishers skipHookFinishers 4 false "DB.Delete" = [[("delete", true)]] := by
+  decide
+
+/-- pipelines that may run more than once in one call (inside a loop, not in a `return`) with hooks on: only
+    CreateInBatches' per-batch create, whose Dest is the sub-slice `value[i:ends]` of the batch loop
+    (`C13_batches_partition`: every record lies in exactly one batch), and FindInBatches' per-batch query -/
+theorem C13_repeatable_entries :
+    (finishers.flatMap fun f => (f.entries.filter fun e => e.inLoop && !e.returned && !e.skipHooks).map
+        fun e => (f.fn, e.kind, e.callee, e.destSrc)) =
+      [("DB.CreateInBatches", "create", "", "reflectValue.Slice(i, ends).Interface()"),
+       ("DB.FindInBatches", "", "Find", "")] ∧
+    (txClosures.map fun c => (c.fn, c.loopHeader)) = [("DB.CreateInBatches", "i := 0; i < reflectLen; i += batchSize")] := by
+  decide
+
+/-- MAIN (the operation's own transaction, data flow): a closure that is handed to `Transaction` uses no *DB handle
+    of the enclosing finisher (receiver, parameters, named results) -- only its own parameter, the transaction --
+    and every pipeline entered inside it runs on a handle derived from that parameter -/
+theorem C13_tx_closures_use_own_tx :
+    ∀ c ∈ txClosures, "Transaction" ∈ c.passedTo →
+      c.outerDBUses = [] ∧ c.entryIds ≠ [] ∧
+      ∀ f ∈ finishers, f.fn = c.fn → ∀ e ∈ f.entries, e.id ∈ c.entryIds → e.inClosure = true ∧ e.rootIsClosureParam = true := by
+  decide
+
+/-- non-vacuity: CreateInBatches has such a closure -/
+example : ∃ c ∈ txClosures, c.fn = "DB.CreateInBatches" ∧ "Transaction" ∈ c.passedTo := by
+  decide
+
+theorem batchFrom_cover (b n : Nat) (hb : 1 ≤ b) :
+    ∀ fuel i, n - i ≤ fuel → i ≤ n →
+      (batchFrom b n fuel i).flatMap (fun r => List.range' r.1 (r.2 - r.1)) = List.range' i (n - i) := by
+  intro fuel
+  induction fuel with
+  | zero =>
+    intro i hf hi
+    have : n - i = 0 := by omega
+    simp [batchFrom, this]
+  | succ fuel ih =>
+    intro i hf hi
+    unfold batchFrom
+    by_cases hlt : i < n
+    · simp only [hlt, if_true, List.flatMap_cons]
+      by_cases hle : i + b ≤ n
+      · have hm : min (i + b) n = i + b := Nat.min_eq_left hle
+        rw [hm, ih (i + b) (by omega) hle]
+        have h1 : i + b - i = b := by omega
+        have h2 : n - i = b + (n - (i + b)) := by omega
+        rw [h1, h2, ← List.range'_append_1]
+      · have hm : min (i + b) n = n := Nat.min_eq_right (by omega)
+        rw [hm]
+        have hnil : batchFrom b n fuel (i + b) = [] := by
+          cases fuel with
+          | zero => rfl
+          | succ k => unfold batchFrom; simp; omega
+        simp [hnil]
+    · have : n - i = 0 := by omega
+      simp [hlt, this]
+
+/-- MAIN (batches): for every length n and batch size b >= 1 the batches of CreateInBatches, concatenated, are
+    exactly the records 0..n-1 in order: every record is handed to exactly one per-batch create pipeline -/
+theorem C13_batches_partition (n b : Nat) (hb : 1 ≤ b) :
+    (batchRanges n b).flatMap (fun r => List.range' r.1 (r.2 - r.1)) = List.range n := by
+  have := batchFrom_cover b n hb n 0 (by omega) (by omega)
+  simpa [batchRanges, List.range_eq_range'] using this
+
+example : batchRanges 5 2 = [(0, 2), (2, 4), (4, 5)] := by decide
+
+/-- the predicted events of CreateInBatches over 3 records in batches of 2 -/
+example : compoundEvents pipelines handlers (fun _ => true) [("create", true)] 3 (batchRanges 3 2) =
+    [.hook "BeforeSave" 0, .hook "BeforeCreate" 0, .hook "BeforeSave" 1, .hook "BeforeCreate" 1, .stmt,
+     .hook "AfterCreate" 0, .hook "AfterSave" 0, .hook "AfterCreate" 1, .hook "AfterSave" 1,
+     .hook "BeforeSave" 2, .hook "BeforeCreate" 2, .stmt, .hook "AfterCreate" 2, .hook "AfterSave" 2] := by
   decide
 
 end Gorm
